@@ -185,8 +185,8 @@ def flag_cases(ctx):
                  (r.randrange(16), r.randrange(16)), (r.randrange(16), r.randrange(16)), (r.randrange(256), r.randrange(256))]
     for i, (oc, rc) in enumerate(pairs):
         for fn, cdname in (("dns::flags", "cd"), ("netbios::ns::flags", "b")):
-            if fn != "dns::flags" and not (ctx.thorough or i < 6):
-                continue
+            if fn != "dns::flags" and not (ctx.thorough or i < 6 or oc > 15 or rc > 15):
+                continue            # (codes beyond four bits go to both helpers in both tiers: only the named field may change)
             st, words = [], []
             for hi in range(16):
                 calls = []
